@@ -124,7 +124,9 @@ def run_impl(ctx, binp, cases):
 
 
 def run_model(ctx, runner, pool, cmds, timeout=3000):
-    rc, out = c.run_bin(runner, [pool], timeout=timeout, input=("\n".join(cmds) + "\n").encode())
+    # the extracted list functions are not tail recursive: 64 KiB byte strings need a deep stack
+    rc, out = c.run_bin("/bin/sh", ["-c", "ulimit -s 4000000 2>/dev/null || ulimit -s unlimited; exec %s %s" % (runner, pool)],
+                        timeout=timeout, input=("\n".join(cmds) + "\n").encode())
     lines = [l for l in out.splitlines() if l.strip()]
     return rc, lines
 
